@@ -1,7 +1,7 @@
 (* C13/Props.v -- property theorems only.  Every theorem holds for every oracle (the C14 values o_data, the
    spike-subset arrays o_subset, the uuid generator o_uuids under its count/distinctness hypothesis) and every
    correctly-rounded-operation / matrix-inverse oracle of the loader model PV.C04.Model.load. *)
-From Coq Require Import ZArith List Bool String Ascii.
+From Coq Require Import ZArith List Bool String Ascii Lia.
 From PV Require Import Base.Tok Base.TokArith C04.Model C13.Model C13.Spec C13.Proofs1 C13.Proofs2 C13.Proofs3.
 Import ListNotations.
 Open Scope string_scope.
@@ -170,6 +170,10 @@ Example C13_ex_converts :
   match load ex_div tmul ex_round (fun a => a) ex_src (TNum 1 1) (Some 2) with
   | Ok m =>
       src_wf m ex_src = true /\ l_created m = [] /\ n_clu m = 3 /\ n_templates m = 2 /\
+      (* the premises of C13_rows / C13_nclu / C13_units / C13_roundtrip hold on this instance *)
+      ids_ok (l_sclusters m) = true /\ ids_ok (l_stemplates m) = true /\ l_tcols m = None /\
+      ids_of (l_sclusters m) = [0; 2; 1] /\ ids_of (l_stemplates m) = [0; 1; 1] /\ n_spikes m = 3 /\ n_channels m = 2 /\
+      find_path P_times_ks ex_src = Some ("spike_times.npy", mkarr DU64 [3; 1] [TNum 0 0; TNum 1 1; TNum 5 0]) /\
       match convert ex_o (ex_ci m "probe00" false) with
       | COk r =>
           map fst (co_npy r) =
@@ -199,3 +203,45 @@ Example C13_ex_converts :
   | Err _ => False
   end.
 Proof. vm_compute. repeat split. Qed.
+
+(* the uuid oracle of the example satisfies the hypothesis of C13_uuids *)
+Example C13_ex_uuid_oracle : forall n, List.length (o_uuids ex_o n) = n /\ NoDup (o_uuids ex_o n).
+Proof.
+  intros n. cbn [o_uuids ex_o]. split; [now rewrite map_length, seq_length|].
+  assert (G : forall l : list nat, NoDup l -> NoDup (map Z.of_nat l)).
+  { induction 1 as [|x l Hx _ IH]; cbn [map]; constructor; [|exact IH].
+    intros Hin. apply in_map_iff in Hin as (y & Hy & Hyl). apply Nat2Z.inj in Hy. now subst. }
+  apply G, seq_NoDup.
+Qed.
+
+(* label insertion, Path.suffix corner cases, the checkers on good and bad observations, the re-basing loop *)
+Example C13_ex_label :
+  relabel "probe00" "templates.waveforms.npy" = "templates.waveforms.probe00.npy" /\
+  relabel "a.b" "clusters.uuids.csv" = "clusters.uuids.a.b.csv" /\
+  relabel "probe00" "params.py" = "params.py" /\ relabel "probe00" "_phy_spikes_subset.spikes.npy" = "_phy_spikes_subset.spikes.npy" /\
+  relabel "" "spikes.times.npy" = "spikes.times.npy" /\
+  split_ext ".hidden" = (".hidden", "") /\ split_ext "x." = ("x.", "") /\ split_ext "a.b.c" = ("a.b", ".c") /\
+  Label_Spec "probe00" "spikes.times.npy" (relabel "probe00" "spikes.times.npy") /\
+  label_b "probe00" ["spikes.times.probe00.npy"; "params.py"] = true /\
+  label_b "probe00" ["spikes.times.npy.probe00"] = false /\ label_b "probe00" ["channels.rawInd.npy"] = false.
+Proof.
+  repeat split; try (vm_compute; reflexivity).
+  exists "spikes.times", "npy". repeat split; try discriminate; reflexivity.
+Qed.
+Example C13_ex_checkers :
+  rows_b 3 4 2 5 [("spikes.x.npy", mkarr DF32 [3; 7] []); ("clusters.y.npy", mkarr DI32 [4] []); ("other.npy", mkarr DI32 [9] [])] = true /\
+  rows_b 3 4 2 5 [("channels.z.npy", mkarr DI32 [1; 5] [])] = false /\
+  uuids_b 3 [0; 1; 2] = true /\ uuids_b 3 [0; 1; 1] = false /\ uuids_b 3 [0; 1] = false /\
+  frame_b true true [] ["temp_wh.dat"] SUBSET = true /\ frame_b true true [] [] SUBSET = false /\
+  frame_b false false [] [] [] = true /\ frame_b false false ["amplitudes.npy"] [] [] = false /\
+  frame_b false true [] [] ["_phy_spikes_subset.spikes.npy"] = false.
+Proof. vm_compute. repeat split. Qed.
+Example C13_ex_rawind :
+  raw_ind [0; 0; 1; 1] [1; 0; 3; 2] = [1; 0; 2; 1] /\            (* two probes: the second is re-based by max of the first *)
+  raw_ind [2; 0; 2; 0] [5; 0; 4; 1] = [4; 0; 3; 1] /\            (* probes visited in increasing id order, channels interleaved *)
+  raw_ind [1; 1; 1] [2; 0; 1] = [2; 0; 1] /\
+  NClu_Spec [0; 2; 1] [0; 1; 1] 2 3 /\ NClu_Spec [0; 1; 1] [0; 1; 1] 2 2.
+Proof.
+  repeat split; try (vm_compute; reflexivity); try congruence; try (cbn; tauto); try (intros y Hy; cbn in Hy; lia);
+    try (intros H; exfalso; now apply H).
+Qed.
